@@ -56,7 +56,7 @@ def run(ctx, out, tier):
             runner = b
     if runner is not None:
         # synchronous helpers of the runner (e.g. a function building the ctx table) are looked through
-        runner = ctx.inl(runner, skip=ctx.domain_api, tag="domain")
+        runner = ctx.inl(runner, skip=ctx.domain_api, tag="domain", sugar=True)
     n = 0
     if runner is None:
         out.inst("C18.ctx", 0, 6, note="script runner (call_async) not found")
@@ -111,7 +111,7 @@ def run(ctx, out, tier):
                 if util.base_local(runner, t["args"][0]) == tbl and rcfg.loops_containing(bi):
                     kl = resolve(ctx.prov.read_operand(runner, t["args"][1]))
                     vl = resolve(ctx.prov.read_operand(runner, t["args"][2]))
-                    calls_k = sorted({l[1].split("::")[-1] for l in kl | vl if l[0] == "call" and not re.search(r"Iterator>?::next$|IntoIterator>?::into_iter$|String::as_str$|Deref>?::deref$", l[1])})
+                    calls_k = sorted({l[1].split("::")[-1] for l in kl | vl if l[0] == "call" and not re.search(r"Iterator>?::next$|IntoIterator>?::into_iter$|HashMap::<K, V, S, A>::iter$|String::as_str$|Deref>?::deref$|AsRef<str>>::as_ref$", l[1])})
                     it_ok = P.has_path(kl, "attributes") and P.has_path(vl, "attributes")
                     # loop over all attributes, no filter
                     loops = util.loop_of_next(ctx, runner, r"\.attributes\)")
@@ -190,16 +190,32 @@ def run(ctx, out, tier):
                         if t["k"] == "switch" and (util.op_place(t["op"]) or {}).get("l") == dl:
                             arms = util.switch_arms(runner, bj)
                             seen = {}
-                            for v, tg in arms.items():
-                                nm = variants[v] if v != "otherwise" and v < len(variants) else "otherwise"
+                            rslots = util.return_slots(runner)
+
+                            def outcome(tg):
                                 okerr, rr = only_err_from(ctx, runner, tg)
                                 oks = []
                                 for x in rr:
                                     for st in runner.blocks[x]["stmts"]:
-                                        if st["k"] == "assign" and st["lhs"]["l"] == 0 and st["rv"]["k"] == "agg" and st["rv"].get("variant") == "Ok":
+                                        if st["k"] == "assign" and st["lhs"]["l"] in rslots and not st["lhs"]["p"] and st["rv"]["k"] == "agg" and st["rv"].get("variant") == "Ok":
                                             pe = ctx.expr(runner).operand(st["rv"]["ops"][0])
                                             oks.append("None" if (pe[0] == "agg" and pe[1].endswith("::None")) else "Some")
-                                seen[nm] = ("Err" if okerr and not oks else "/".join(sorted(set(oks))) or "?")
+                                return "Err" if okerr and not oks else "/".join(sorted(set(oks))) or "?"
+                            for v, tg in arms.items():
+                                nm = variants[v] if v != "otherwise" and v < len(variants) else "otherwise"
+                                seen[nm] = outcome(tg)
+                            # `if value.is_nil() { return Ok(None) }` in front of the match: nil is
+                            # decided by that test (it dominates the switch)
+                            rcfg2 = cfg_of(runner)
+                            for bk, tk in runner.calls():
+                                if callee_matches(tk, r"^mlua::Value::is_nil$") and rcfg2.dominates(bk, bj) and rcfg2.succ[bk]:
+                                    swk = rcfg2.succ[bk][0]
+                                    ttk = runner.blocks[swk]["term"]
+                                    if ttk and ttk["k"] == "switch":
+                                        ak = util.switch_arms(runner, swk)
+                                        yes = ak["otherwise"] if 0 in ak else ak.get(1)
+                                        if yes is not None and not rcfg2.dominates(yes, bj):
+                                            seen["Nil"] = outcome(yes)
                             want = {"Nil": "None", "String": "Some", "otherwise": "Err"}
                             for nm, w in want.items():
                                 if seen.get(nm) == w:
@@ -211,7 +227,7 @@ def run(ctx, out, tier):
                                 out.viol("C18.result", "C18.result|extra|%s" % nm, ctx.where(runner), "a `validate` result of kind %s is accepted (%s); only nil and string are" % (nm, seen[nm]))
             # the diagnostic text is the returned string
             for bi, j, s in runner.assigns():
-                if s["lhs"]["l"] == 0 and s["rv"]["k"] == "agg" and s["rv"].get("variant") == "Ok":
+                if s["lhs"]["l"] in util.return_slots(runner) and not s["lhs"]["p"] and s["rv"]["k"] == "agg" and s["rv"].get("variant") == "Ok":
                     labs = ctx.prov.read_operand(runner, s["rv"]["ops"][0])
                     if P.has_call(labs, r"^mlua::String::to_str$"):
                         r += 1
@@ -223,7 +239,9 @@ def run(ctx, out, tier):
         cands = [b for b in ctx.validator_bodies(NAME) if any(util.const_val(ctx, b, t["args"][1]) == "check-lua-pattern" for bi, t in b.calls() if callee_matches(t, r"HashMap::<K, V, S, A>::get$") and len(t["args"]) > 1)]
         sel = cands[0] if cands else None
     asyncval.check_content_selector(ctx, out, "C18", sel, "check-lua-pattern")
-    asyncval.check_sibling_selectors(ctx, out)
+    # (the former sibling comparison of the two content selectors was dropped: each selector is decided
+    # against the documented selection on its own - a change of the *other* validator's selector is not
+    # a violation of this property, and a style difference between the two is not a violation at all)
     shared.sh_err(ctx, out, ctx.validator_bodies(NAME) + [b for b in ctx.reachable_bodies() if b.id.startswith("blockwatch::validators::run")], floor=25)
     shared.sh_state(ctx, out, NAME)
     shared.sh_merge(ctx, out, ctx.reachable_bodies())
